@@ -2495,6 +2495,11 @@ def make_ext_modules(I):
 
     mth["sqrt"] = bi("math.sqrt", m_sqrt)
 
+    def m_exp(I, st, a, k):
+        yield from ops.exp(I, st, a[0])
+
+    mth["exp"] = bi("math.exp", m_exp)
+
     def m_ceil(I, st, a, k):
         v = as_arith(a[0])
         if is_z3(v):
@@ -2514,6 +2519,7 @@ def make_ext_modules(I):
     pi = z3.Real("pi")
     I.axiom("pi", z3.And(pi > z3.RealVal("3.14159265358979"), pi < z3.RealVal("3.14159265358980")))
     mth["pi"] = pi
+    mth["e"] = Fraction(math.e)  # A1: the float constant math.e as the exact rational it is
     mth["tau"] = 2 * pi
     mth["inf"] = Opaque("inf")
 
